@@ -103,10 +103,10 @@ func NewServerDnsListener(topDomain string, comm ServerCommunicator) *ServerDnsL
 				}
 
 				if u.lastConnection.Add(OldConnectionTimeout).Before(now) {
-					// Remove connection from our list
+					// Forget the retired connection. (The live table must not be touched: the slot
+					// may long since belong to another, live session.)
 					log.Infof("Removing stale old connection for user %d (%s)", u.UserId, u.remoteAddress)
-					srv.connections[u.UserId] = nil
-					srv.oldConnections[u.UserId] = u
+					srv.oldConnections[u.UserId] = nil
 				}
 			}
 
